@@ -32,6 +32,13 @@ fn tx_ops(tx: &Transaction) {
     let vp = view_pair();
     let _ = tx.check_outputs(&vp, 0..2, 0..3);
     let _ = tx.prefix.check_outputs(&vp, 0..1, 0..2, tx.rct_signatures.sig.as_ref());
+    // "any index ranges": empty, reversed (a legal empty Range<u32>) and top-of-range windows
+    #[allow(clippy::reversed_empty_ranges)]
+    for (ma, mi) in [(0..0u32, 0..0u32), (3..1, 0..2), (0..1, 5..2), (u32::MAX..0, u32::MAX..0), (u32::MAX - 1..u32::MAX, u32::MAX - 2..u32::MAX), (7..7, 0..3)] {
+        let _ = tx.check_outputs(&vp, ma.clone(), mi.clone());
+        let ck = monero::cryptonote::onetime_key::SubKeyChecker::new(&vp, ma, mi);
+        let _ = tx.check_outputs_with(&ck);
+    }
     for o in &tx.prefix.outputs { let _ = o.get_one_time_key(); let _ = o.target.check_view_tag(vp.spend, 300); }
     let _ = serde_json::to_string(tx);
 }
